@@ -98,7 +98,16 @@ func NewInst(o InstOpts) (*Inst, error) {
 	}
 	opts := []func(*sugardb.SugarDB){sugardb.WithConfig(conf), sugardb.WithVerifClock(clk)}
 	opts = append(opts, o.Extra...)
-	s, err := sugardb.NewSugarDB(opts...)
+	var s *sugardb.SugarDB
+	var err error
+	func() {
+		defer func() {
+			if r := recover(); r != nil {
+				err = fmt.Errorf("panic during start-up: %v\n%s", r, trunc(string(debug.Stack()), 1200))
+			}
+		}()
+		s, err = sugardb.NewSugarDB(opts...)
+	}()
 	if err != nil {
 		return nil, err
 	}
